@@ -650,8 +650,11 @@ class MacroProgram(ElementProgram):
         return self.visit_element(start, None, [])
 
     def visit_cdata(self, node):
-        if not self._interpolation[-1] or '${' not in node:
+        if not self._interpolation[-1]:
             return nodes.Text(node)
+
+        if '${' not in node:
+            return nodes.Text(node.replace('$$', '$'))
 
         expr = nodes.Substitution(node, ())
         return nodes.Interpolation(expr, True, False)
@@ -666,8 +669,11 @@ class MacroProgram(ElementProgram):
         if node.startswith('<!--?'):
             return nodes.Text('<!--' + node.lstrip('<!-?'))
 
-        if not self._interpolation[-1] or '${' not in node:
+        if not self._interpolation[-1]:
             return nodes.Text(node)
+
+        if '${' not in node:
+            return nodes.Text(node.replace('$$', '$'))
 
         char_escape = ('&', '<', '>') if self.escape else ()
         expression = nodes.Substitution(node[4:-3], char_escape)
@@ -841,7 +847,11 @@ class MacroProgram(ElementProgram):
                 # here if there's one or more "computed" attributes
                 # (dynamic, from one or more dict values).
                 else:
-                    value = ast.Constant(text)
+                    # The ``$$`` escape applies whether or not the text
+                    # holds an interpolation expression.
+                    value = ast.Constant(
+                        text.replace('$$', '$') if text is not None else text
+                    )
                     if msgid is missing and implicit_i18n:
                         msgid = text
 
